@@ -175,7 +175,7 @@ var ctFrontEnds = []ctFrontEnd{
 		v := int(atomic.AddInt64(&ctFEVariant, 1))
 		g := zapgrpc.NewLogger(lg)
 		gd := zapgrpc.NewLogger(lg, zapgrpc.WithDebug())
-		if v%2 == 1 && l != zapcore.DebugLevel {
+		if (v/12)%2 == 1 && l != zapcore.DebugLevel {
 			g = gd
 		}
 		switch l {
